@@ -12,6 +12,10 @@
 //!                    plain payload of the same records] | ["err", stage]
 //!   readglob  in = [[[key, [records]], ...], pattern]  objects written in this order through
 //!             write_cloud_jsonl_vec, then read_cloud_jsonl_glob; out = ["ok", records] | ["err", k]
+//!   seq       in = [[[key, [records]], ...], [keys to read]]  the writes in this order through
+//!             write_cloud_jsonl_vec (the same key may be written several times), then each
+//!             listed key through read_cloud_jsonl_vec;
+//!             out = one ["ok", signature id of the stored bytes, records] | ["err", kind] per key
 //! A string is a JSON string or an array of code points. Outcomes: ["ok", v] | ["err", kind].
 use ibv::{Emitter, SplitMix64, Tier, drive, run_caught};
 use ironbeam::io::cloud::FakeObjectIO;
@@ -196,8 +200,99 @@ fn run(kind: &str, input: &Value) -> Value {
                 Err(e) => json!(["err", format!("{:?}", e.kind)]),
             }
         }
+        "seq" => {
+            let st = FakeObjectIO::new();
+            for o in input[0].as_array().unwrap() {
+                let key = str_of(&o[0]);
+                let recs: Vec<Value> = o[1].as_array().unwrap().clone();
+                if let Err(e) = write_cloud_jsonl_vec(&st, BUCKET, &key, &recs) {
+                    return json!(["err", format!("write:{:?}", e.kind)]);
+                }
+            }
+            let outs: Vec<Value> = input[1]
+                .as_array()
+                .unwrap()
+                .iter()
+                .map(|k| {
+                    let key = str_of(k);
+                    match read_cloud_jsonl_vec::<Value, _>(&st, BUCKET, &key) {
+                        Ok(v) => {
+                            let sig = signature_id(&st.get_object(BUCKET, &key).unwrap());
+                            json!(["ok", sig, v])
+                        }
+                        Err(e) => json!(["err", format!("{:?}", e.kind)]),
+                    }
+                })
+                .collect();
+            Value::Array(outs)
+        }
         _ => json!(["bad-kind"]),
     }
+}
+
+/// length of the bytes write_cloud_jsonl_vec stores for these records under this key
+fn stored_len(key: &str, recs: &[Value]) -> usize {
+    let st = FakeObjectIO::new();
+    write_cloud_jsonl_vec(&st, BUCKET, key, recs).unwrap();
+    st.get_object(BUCKET, key).unwrap().len()
+}
+
+/// same shape and the same serialised width, different content: every digit / ASCII letter is
+/// replaced by another digit / letter chosen by `salt`; true <-> null (both 4 bytes)
+fn same_width_variant(v: &Value, salt: u64) -> Value {
+    match v {
+        Value::Number(n) => {
+            let t: String = n
+                .to_string()
+                .chars()
+                .enumerate()
+                .map(|(i, c)| {
+                    if c.is_ascii_digit() {
+                        let d = c as u8 - b'0';
+                        // keep the leading digit non-zero
+                        let nd = 1 + (d + (salt as u8 % 8) + i as u8) % 9;
+                        (b'0' + nd) as char
+                    } else {
+                        c
+                    }
+                })
+                .collect();
+            let z: i64 = t.parse().unwrap_or(1);
+            json!(z)
+        }
+        Value::String(s) => Value::String(
+            s.chars()
+                .map(|c| {
+                    if c.is_ascii_lowercase() {
+                        (b'a' + (c as u8 - b'a' + 1 + (salt % 20) as u8) % 26) as char
+                    } else if c.is_ascii_uppercase() {
+                        (b'A' + (c as u8 - b'A' + 1 + (salt % 20) as u8) % 26) as char
+                    } else if c.is_ascii_digit() {
+                        (b'0' + (c as u8 - b'0' + 1 + (salt % 8) as u8) % 10) as char
+                    } else {
+                        c
+                    }
+                })
+                .collect(),
+        ),
+        Value::Bool(true) => Value::Null,
+        Value::Null => Value::Bool(true),
+        Value::Array(a) => Value::Array(a.iter().map(|x| same_width_variant(x, salt)).collect()),
+        other => other.clone(),
+    }
+}
+
+/// a batch B != A with the same plain width whose STORED length under `key` equals A's
+/// (compressed lengths may differ for some variants: try a few salts); None if none is found
+fn same_stored_len_variant(key: &str, a: &[Value]) -> Option<Vec<Value>> {
+    let la = stored_len(key, a);
+    for salt in 0..40u64 {
+        let b: Vec<Value> = a.iter().map(|x| same_width_variant(x, salt)).collect();
+        if b != a && stored_len(key, &b) == la {
+            return Some(b);
+        }
+    }
+    None
 }
 
 // ------------------------------------------------------------------------------------------
@@ -222,6 +317,13 @@ fn nontrivial(kind: &str, input: &Value, out: &Value) -> bool {
             out[0][0] == "ok" && has_special(&pattern) && matched > 0 && matched < total
         }
         "roundtrip" => !input[1].as_array().unwrap().is_empty() && out[0] == "ok",
+        "seq" => {
+            // some key is written at least twice and read back
+            let ws = input[0].as_array().unwrap();
+            let keys: Vec<String> = ws.iter().map(|o| str_of(&o[0])).collect();
+            let reads: Vec<String> = input[1].as_array().unwrap().iter().map(str_of).collect();
+            reads.iter().any(|k| keys.iter().filter(|x| *x == k).count() >= 2)
+        }
         "readglob" => {
             input[0].as_array().unwrap().len() >= 2
                 && out[0] == "ok"
@@ -584,6 +686,89 @@ fn generate(seed: u64, tier: Tier, em: &mut Emitter) {
         let names: Vec<String> = objs.iter().map(|o| str_of(&o[0])).collect();
         let p = gen_pattern(&mut rng, &names);
         emit(em, "readglob", json!([objs, p]), &["random"]);
+    }
+
+    // ---- 7. overwrite sequences: the object read back is the LAST one written
+    let batches: Vec<Vec<Value>> = vec![
+        vec![json!(1)],
+        vec![json!(12), json!("ab"), json!([3, "cd", true])],
+        vec![json!(7), json!(8), json!(9), json!("xyz"), json!(null), json!([10, 20])],
+        (0..40).map(|i| json!([100 + i, "row", i % 2 == 0])).collect(),
+    ];
+    let ow_keys: &[&str] = &[
+        "k", "k.jsonl", "k.gz", "k.GZ", "k.gzip", "k.GzIp", "k.zst", "k.ZST", "k.zstd", "k.bz2", "k.BZ2",
+        "k.bzip2", "k.xz", "k.XZ", ".gz", "dir/.zst", "a.gz/b", "d/k.jsonl.gz",
+    ];
+    for key in ow_keys {
+        for a in &batches {
+            // (i) B of the same stored length as A
+            match same_stored_len_variant(key, a) {
+                Some(b) => emit(em, "seq", json!([[[key, a], [key, b]], [key]]), &["overwrite", "same-length"]),
+                None => {
+                    let b: Vec<Value> = a.iter().map(|x| same_width_variant(x, 1)).collect();
+                    emit(em, "seq", json!([[[key, a], [key, b]], [key]]), &["overwrite", "same-width"]);
+                }
+            }
+            // (ii) shorter, longer, empty after non-empty, non-empty after empty
+            let shorter: Vec<Value> = a[..a.len() / 2].to_vec();
+            let mut longer = a.clone();
+            longer.extend(a.iter().map(|x| same_width_variant(x, 3)));
+            emit(em, "seq", json!([[[key, a], [key, shorter]], [key]]), &["overwrite", "shorter"]);
+            emit(em, "seq", json!([[[key, a], [key, longer]], [key]]), &["overwrite", "longer"]);
+            emit(em, "seq", json!([[[key, a], [key, []]], [key]]), &["overwrite", "empty-after"]);
+            emit(em, "seq", json!([[[key, []], [key, a]], [key]]), &["overwrite", "empty-before"]);
+        }
+        // (iii) three writes A, B, A' and a write to another key in between; read both and a
+        //       key never written
+        let a = &batches[1];
+        let b = same_stored_len_variant(key, a)
+            .unwrap_or_else(|| a.iter().map(|x| same_width_variant(x, 1)).collect());
+        let c: Vec<Value> = b.iter().map(|x| same_width_variant(x, 5)).collect();
+        let k2 = format!("other-{}", key.replace('/', "_"));
+        emit(
+            em,
+            "seq",
+            json!([[[key, a], [k2, a], [key, b], [k2, c], [key, c]], [key, k2, "never-written"]]),
+            &["overwrite", "interleaved"],
+        );
+        // (iv) glob read after a same-length overwrite
+        emit(
+            em,
+            "readglob",
+            json!([[[key, a], [k2, a], [key, b]], "**"]),
+            &["overwrite", "same-length", "glob"],
+        );
+    }
+    // seeded random sequences over a few keys
+    let nseq = if thorough { 3000 } else { 250 };
+    let exts = ["", ".jsonl", ".gz", ".GZ", ".zst", ".bz2", ".xz", ".gzip"];
+    for _ in 0..nseq {
+        let nk = 1 + rng.below(3) as usize;
+        let keys: Vec<String> =
+            (0..nk).map(|i| format!("{}{}{}", rng.pick(&["k", "d/k", ""]), i, rng.pick(&exts))).collect();
+        let nw = 2 + rng.below(5) as usize;
+        let mut last: Vec<Option<Vec<Value>>> = vec![None; nk];
+        let mut writes: Vec<Value> = Vec::new();
+        for _ in 0..nw {
+            let i = rng.below(nk as u64) as usize;
+            let recs = match (&last[i], rng.below(3)) {
+                (Some(prev), 0) => same_stored_len_variant(&keys[i], prev)
+                    .unwrap_or_else(|| gen_records(&mut rng, &pool, 4)),
+                (Some(prev), 1) => prev.iter().map(|x| same_width_variant(x, rng.below(30))).collect(),
+                _ => gen_records(&mut rng, &pool, 4),
+            };
+            writes.push(json!([keys[i], recs]));
+            last[i] = Some(recs);
+        }
+        let mut reads: Vec<Value> = keys.iter().map(|k| sval(k)).collect();
+        if rng.chance(1, 4) {
+            reads.push(sval("never-written"));
+        }
+        if rng.chance(1, 2) {
+            emit(em, "seq", json!([writes, reads]), &["overwrite", "random"]);
+        } else {
+            emit(em, "readglob", json!([writes, rng.pick(&["**", "*", "k*", "d/*", "?0*"])]), &["overwrite", "random", "glob"]);
+        }
     }
 }
 
